@@ -149,8 +149,9 @@ class HostRun:
 
   current = None
 
-  def __init__(self, mode="exec", unroll=64, on_launch=None, interp_kw=None, max_threads=20000):
+  def __init__(self, mode="exec", unroll=64, on_launch=None, interp_kw=None, max_threads=20000, order="asc"):
     self.mode, self.unroll, self.on_launch = mode, unroll, on_launch
+    self.order = order  # serial schedule of the threads of every launch: "asc" | "rev" | callable(list of tids) -> list
     self.events = []
     self.interp_kw = interp_kw or {}
     self.assumes = []
@@ -203,7 +204,12 @@ class HostRun:
     _t0 = time.time()
     if os.environ.get("WSYM_VERBOSE"):
       print(f"[host] launch {kernel.key} dim={d}", flush=True)
-    for tid in itertools.product(*[range(n) for n in d]):
+    tids = list(itertools.product(*[range(n) for n in d]))
+    if self.order == "rev":
+      tids.reverse()
+    elif callable(self.order):
+      tids = list(self.order(tids))
+    for tid in tids:
       self.nthreads += 1
       if self.nthreads > self.max_threads:
         raise Unsupported("too many threads in host run")
